@@ -1,6 +1,8 @@
 import WebPkg.Proofs.Variants
 import WebPkg.Proofs.BundleWF
 import WebPkg.Proofs.BundleRoundTrip
+import WebPkg.Proofs.BundleFixpoint
+import WebPkg.Proofs.BundleVariantsRT
 /-
   C03 — Web bundle write → read round trip preserves every exchange.
   This file currently holds the Variants (b1) ordering laws and the writer-side accounting; the full
@@ -67,5 +69,61 @@ theorem read_write_b2 (url : BUrlFacts) (parseOk : Bytes → Bool) (b : Bundle) 
       b'.exchanges.length = b.exchanges.length := by
   obtain ⟨b', h1, h2, h3, _, _, h6, σ, hσ, hl, _⟩ := Bundle.read_write_b2 url parseOk b out hv hd hw hlen
   exact ⟨b', h1, h2, h3, h6, by rw [hl, hσ.length_eq]⟩
+
+
+/-- T (read-back form): what the reader returns for a writer output is `Normal`: exchanges strictly ascending in the
+    index-map order of their URLs, header names canonical, one (comma-joined) value per field, fields in map order. -/
+theorem read_normal (url : BUrlFacts) (parseOk : Bytes → Bool) (b : Bundle) (out : Bytes)
+    (hd : RDomG url parseOk b) (hw : write b = .ok (.ok out)) (hlen : out.length < 2 ^ 63) :
+    ∃ b', read url parseOk out = .ok b' ∧ Normal b' := Bundle.read_normal url parseOk b out hd hw hlen
+
+/-- T (identity on read-back forms): exact equality, no permutation -/
+theorem read_write_normal (url : BUrlFacts) (parseOk : Bytes → Bool) (b : Bundle) (out : Bytes)
+    (hn : Normal b) (hd : RDomG url parseOk b) (hw : write b = .ok (.ok out)) (hlen : out.length < 2 ^ 63) :
+    read url parseOk out = .ok b := Bundle.read_write_normal url parseOk b out hn hd hw hlen
+
+/-- T (fixpoint): write, read, write again: the second serialization is a fixpoint -- reading it gives back the same
+    bundle, the writer accepts what was read, and every further write/read cycle reproduces the same bytes.
+    (One representation per URL, as in `read_write`; the reader flattens multi-key Variant-Key entries by design.) -/
+theorem write_read_fixpoint (url : BUrlFacts) (parseOk : Bytes → Bool) (b : Bundle) (out₁ : Bytes)
+    (hd : RDomG url parseOk b) (hw₁ : write b = .ok (.ok out₁)) (hlen₁ : out₁.length < 2 ^ 63) :
+    ∃ b₁ out₂, read url parseOk out₁ = .ok b₁ ∧ Normal b₁ ∧ RDomG url parseOk b₁ ∧
+      write b₁ = .ok (.ok out₂) ∧
+      (out₂.length < 2 ^ 63 →
+        read url parseOk out₂ = .ok b₁ ∧
+        ∀ b₂, read url parseOk out₂ = .ok b₂ → write b₂ = .ok (.ok out₂)) :=
+  Bundle.read_write_fixpoint url parseOk b out₁ hd hw₁ hlen₁
+
+
+/-- T (b1 variant sets): a b1 bundle with several representations per URL (each carrying one Variant-Key) reads back as
+    groups, one per URL in index order, and inside a group the i-th representation is the one whose Variant-Key is the i-th
+    possible key of the Variants value in row-major order (`VariantGroup.rowMajor`); same version, primary URL, manifest URL,
+    signatures; every exchange comes back with the same URL, status, body and normalised headers (`bfp_Back`).
+    `VDom`: what the reader checks and the writer does not, plus single-key Variant-Key values (multi-key entries are
+    flattened into repeated exchanges by the reader, by design). -/
+theorem read_write_b1_variants (url : BUrlFacts) (parseOk : Bytes → Bool) (b : Bundle) (out : Bytes)
+    (hv : b.version = .b1) (hd : VDom url parseOk b) (hw : write b = .ok (.ok out)) (hlen : out.length < 2 ^ 63) :
+    ∃ (b' : Bundle) (groups : List (List Exch)), read url parseOk out = .ok b' ∧ b'.version = .b1 ∧
+      b'.primaryURL = b.primaryURL ∧ b'.manifestURL = b.manifestURL ∧ b'.signatures = b.signatures ∧
+      groups.flatten.Perm b.exchanges ∧
+      Forall₂ bfp_Back groups.flatten b'.exchanges ∧
+      groups.Pairwise (fun g1 g2 => ∀ e1 ∈ g1, ∀ e2 ∈ g2, blt (tstr e1.url) (tstr e2.url) = true) ∧
+      ∀ g ∈ groups, VariantGroup g := Bundle.read_write_b1_variants url parseOk b out hv hd hw hlen
+
+/-- T (refusal at write time): overlapping coverage -- two Variant-Key claims of one URL naming the same key -- is not written -/
+theorem write_refuses_overlapping_variants (b : Bundle) (hv : b.version = .b1) (u : Bytes)
+    (hl : 1 < (b.exchanges.filter (fun e => e.url == u)).length)
+    (h : ¬ (exClaims (b.exchanges.filter (fun e => e.url == u))).Nodup) (out : Bytes) : write b ≠ .ok (.ok out) :=
+  write_b1_refuses_overlap b hv u hl h out
+
+/-- T (refusal at write time): incomplete coverage -- a possible key claimed by no representation -- is not written -/
+theorem write_refuses_incomplete_variants (b : Bundle) (hv : b.version = .b1) (u : Bytes)
+    (hl : 1 < (b.exchanges.filter (fun e => e.url == u)).length)
+    (e0 : Exch) (he0 : e0 ∈ b.exchanges.filter (fun e => e.url == u)) (variants : List (List Bytes)) (num i : Nat)
+    (hp : parseListOfStringLists (exVariants e0) = some variants) (hn : numberOfPossibleKeys variants 1 = some num)
+    (hi : i < num)
+    (h : ∀ vk ∈ exClaims (b.exchanges.filter (fun e => e.url == u)), indexInPossibleKeys variants vk ≠ some i)
+    (out : Bytes) : write b ≠ .ok (.ok out) :=
+  write_b1_refuses_incomplete b hv u hl e0 he0 variants num i hp hn hi h out
 
 end WebPkg.C03
